@@ -109,3 +109,149 @@ Definition http_status (r : http_res) : N :=
   match r with HProcessed => 200 | HTooLarge413 _ => 413 | HStream500 => 500 end.
 Definition http_reject_body (r : http_res) : option bytes :=
   match r with HProcessed => None | HTooLarge413 l => Some (too_big_request_frame l) | HStream500 => Some internal_error_body end.
+
+(* ---------- pipelined messages and the bounded outgoing queue (the rejection under back-pressure) ----------
+
+   server/src/transport/ws.rs `background_task` with the connection's outgoing channel
+   (`mpsc::channel(message_buffer_capacity)`, ServerConfigBuilder::set_message_buffer_capacity, never 0) made explicit:
+     * the receive loop reads one message at a time; an accepted message is moved into its own `tokio::spawn`ed task
+       (the loop does not wait for it); for a message soketto refused (`MessageTooLarge`) the loop itself does
+       `sink.send_error(Id::Null, reject_too_big_request(..)).await` -- it is PARKED until the channel has room, and
+       reads nothing meanwhile;
+     * a spawned task computes its reply (`handle_rpc_call`, C01's subject: here only "the normal outcome of message
+       <id>") and then does `sink.send(json).await` -- parked until the channel has room;
+     * `send_task` takes the replies out of the channel in order and writes them to the socket; when the peer does not
+       read, the write blocks (= the step `StWrite` is not scheduled).
+   Every interleaving is a run of `conn_step`; which parked sender gets a free slot is left open (tokio's semaphore is
+   FIFO, nothing here depends on it).  A message is (id, size): the id only names "its" normal outcome. *)
+
+Record pmsg := { pm_id : N; pm_size : N }.
+
+Inductive preply :=
+| PRejected (reported : N)      (* the -32007 frame, id null, data "Exceeded max limit of <reported>" *)
+| PAnswered (id : N).           (* the normal outcome of the in-limit message <id> *)
+
+(* what one message is answered with, taken alone *)
+Definition pipeline_outcome (limit reported : N) (m : pmsg) : preply :=
+  if soketto_accepts limit (pm_size m) then PAnswered (pm_id m) else PRejected reported.
+
+(* the per-message outcome for every message *)
+Definition ws_pipeline_replies (c : cfg) (msgs : list pmsg) : list preply :=
+  map (pipeline_outcome (max_request c) (max_request c)) msgs.
+
+Record conn := {
+  k_inbox : list pmsg;          (* written by the peer, not yet read by the receive loop *)
+  k_parked : option preply;     (* the receive loop inside `sink.send_error(..).await` *)
+  k_running : list preply;      (* spawned tasks that have not reached `sink.send` yet (with the reply they will produce) *)
+  k_waiting : list preply;      (* spawned tasks inside `sink.send(..).await` *)
+  k_queue : list preply;        (* the bounded channel *)
+  k_wire : list preply          (* written to the socket by send_task, in order *)
+}.
+
+Definition conn_init (msgs : list pmsg) : conn :=
+  {| k_inbox := msgs; k_parked := None; k_running := []; k_waiting := []; k_queue := []; k_wire := [] |}.
+
+Definition queue_has_room (cap : N) (q : list preply) : bool := N.of_nat (length q) <? cap.
+
+Inductive conn_step (limit reported cap : N) : conn -> conn -> Prop :=
+| StRecvOk : forall m inbox run wait q w,            (* Receive::Ok -> tokio::spawn *)
+    soketto_accepts limit (pm_size m) = true ->
+    conn_step limit reported cap
+      {| k_inbox := m :: inbox; k_parked := None; k_running := run; k_waiting := wait; k_queue := q; k_wire := w |}
+      {| k_inbox := inbox; k_parked := None; k_running := run ++ [PAnswered (pm_id m)]; k_waiting := wait; k_queue := q; k_wire := w |}
+| StRecvTooBig : forall m inbox run wait q w,        (* MessageTooLarge -> send_error(..).await begins *)
+    soketto_accepts limit (pm_size m) = false ->
+    conn_step limit reported cap
+      {| k_inbox := m :: inbox; k_parked := None; k_running := run; k_waiting := wait; k_queue := q; k_wire := w |}
+      {| k_inbox := inbox; k_parked := Some (PRejected reported); k_running := run; k_waiting := wait; k_queue := q; k_wire := w |}
+| StLoopEnqueue : forall r inbox run wait q w,       (* send_error(..).await completes; `continue` *)
+    queue_has_room cap q = true ->
+    conn_step limit reported cap
+      {| k_inbox := inbox; k_parked := Some r; k_running := run; k_waiting := wait; k_queue := q; k_wire := w |}
+      {| k_inbox := inbox; k_parked := None; k_running := run; k_waiting := wait; k_queue := q ++ [r]; k_wire := w |}
+| StTaskReady : forall r inbox p run1 run2 wait q w, (* a task has its reply: sink.send(..).await begins *)
+    conn_step limit reported cap
+      {| k_inbox := inbox; k_parked := p; k_running := run1 ++ r :: run2; k_waiting := wait; k_queue := q; k_wire := w |}
+      {| k_inbox := inbox; k_parked := p; k_running := run1 ++ run2; k_waiting := wait ++ [r]; k_queue := q; k_wire := w |}
+| StTaskEnqueue : forall r inbox p run wait1 wait2 q w,   (* sink.send(..).await completes *)
+    queue_has_room cap q = true ->
+    conn_step limit reported cap
+      {| k_inbox := inbox; k_parked := p; k_running := run; k_waiting := wait1 ++ r :: wait2; k_queue := q; k_wire := w |}
+      {| k_inbox := inbox; k_parked := p; k_running := run; k_waiting := wait1 ++ wait2; k_queue := q ++ [r]; k_wire := w |}
+| StWrite : forall r inbox p run wait q w,           (* send_task: rx.next() + send_message *)
+    conn_step limit reported cap
+      {| k_inbox := inbox; k_parked := p; k_running := run; k_waiting := wait; k_queue := r :: q; k_wire := w |}
+      {| k_inbox := inbox; k_parked := p; k_running := run; k_waiting := wait; k_queue := q; k_wire := w ++ [r] |}.
+
+Inductive conn_steps (limit reported cap : N) : conn -> conn -> Prop :=
+| StepsRefl : forall k, conn_steps limit reported cap k k
+| StepsCons : forall k1 k2 k3, conn_step limit reported cap k1 k2 -> conn_steps limit reported cap k2 k3 -> conn_steps limit reported cap k1 k3.
+
+(* nothing can move any more *)
+Definition conn_stuck (limit reported cap : N) (k : conn) : Prop := forall k', ~ conn_step limit reported cap k k'.
+
+(* One executable schedule, the one with the most back-pressure: the peer's reader is served (StWrite) only when
+   nothing else can move.  Used by the model runner; `None` = nothing can move. *)
+Definition conn_next (limit reported cap : N) (k : conn) : option conn :=
+  let write :=
+    match k_queue k with
+    | r :: q => Some {| k_inbox := k_inbox k; k_parked := k_parked k; k_running := k_running k; k_waiting := k_waiting k;
+                        k_queue := q; k_wire := k_wire k ++ [r] |}
+    | [] => None
+    end in
+  match k_parked k, k_inbox k, k_running k with
+  | None, m :: inbox, _ =>
+    if soketto_accepts limit (pm_size m)
+    then Some {| k_inbox := inbox; k_parked := None; k_running := k_running k ++ [PAnswered (pm_id m)]; k_waiting := k_waiting k;
+                 k_queue := k_queue k; k_wire := k_wire k |}
+    else Some {| k_inbox := inbox; k_parked := Some (PRejected reported); k_running := k_running k; k_waiting := k_waiting k;
+                 k_queue := k_queue k; k_wire := k_wire k |}
+  | _, _, r :: run =>
+    Some {| k_inbox := k_inbox k; k_parked := k_parked k; k_running := run; k_waiting := k_waiting k ++ [r];
+            k_queue := k_queue k; k_wire := k_wire k |}
+  | p, _, [] =>
+    if queue_has_room cap (k_queue k) then
+      match k_waiting k, p with
+      | r :: wait, _ =>       (* the tasks parked first go first: they were parked before the loop (FIFO) *)
+        Some {| k_inbox := k_inbox k; k_parked := p; k_running := []; k_waiting := wait; k_queue := k_queue k ++ [r]; k_wire := k_wire k |}
+      | [], Some r =>
+        Some {| k_inbox := k_inbox k; k_parked := None; k_running := []; k_waiting := []; k_queue := k_queue k ++ [r]; k_wire := k_wire k |}
+      | [], None => write
+      end
+    else write
+  end.
+
+Fixpoint conn_run (limit reported cap : N) (fuel : nat) (k : conn) : conn :=
+  match fuel with
+  | O => k
+  | S f => match conn_next limit reported cap k with Some k' => conn_run limit reported cap f k' | None => k end
+  end.
+
+Definition conn_idle (k : conn) : bool :=
+  match k_inbox k, k_parked k, k_running k, k_waiting k, k_queue k with
+  | [], None, [], [], [] => true
+  | _, _, _, _, _ => false
+  end.
+
+(* the run of a pipelined session on an entry point, under the schedule above: what reached the wire, whether the
+   connection came to rest with nothing pending, and whether the receive loop was ever parked behind a full queue *)
+Fixpoint conn_run_parked (limit reported cap : N) (fuel : nat) (k : conn) : bool :=
+  match fuel with
+  | O => false
+  | S f =>
+    match conn_next limit reported cap k with
+    | Some k' =>
+      (match k_parked k' with Some _ => negb (queue_has_room cap (k_queue k')) | None => false end)
+      || conn_run_parked limit reported cap f k'
+    | None => false
+    end
+  end.
+
+Definition ws_pipeline_session (e : ep) (c : cfg) (cap : N) (msgs : list pmsg) : option (list preply * bool * bool) :=
+  match ws_limit_of e c with
+  | Some l =>
+    let fuel := (4 * length msgs + 4)%nat in
+    let k := conn_run l (ws_reported_limit c) cap fuel (conn_init msgs) in
+    Some (k_wire k, conn_idle k, conn_run_parked l (ws_reported_limit c) cap fuel (conn_init msgs))
+  | None => None
+  end.
